@@ -141,6 +141,8 @@ def body(chk):
             chk.report("KS_bounds:pbox", f"pbox output raises {type(e).__name__}: {e}", rep)
         # ---- interval data around the sample
         w = [abs(rng.gauss(0, 0.3)) * (abs(v) + 1e-3) if rng.random() < 0.8 else 0.0 for v in s]
+        if si % 4 == 3:   # every interval degenerate: interval data that IS a precise sample (the two bounds must still be D above / below the ecdf)
+            w = [0.0] * len(s)
         lo, hi = [v - a for v, a in zip(s, w)], [v + a * rng.random() for v, a in zip(s, w)]
         chk.count(f"interval-{style}", key=("I", style, n, alpha, si))
         try:
